@@ -237,6 +237,8 @@ class Normalizer:
             r = self.hook(n, self)
             if r is not None:
                 return r
+        if k == 'ParenExpr' and c:
+            return self.to_rat(c[0])
         if k in ('IntegerLiteral', 'FloatingLiteral'):
             nm = self.named_constant(n)
             if nm:
